@@ -157,9 +157,17 @@ class ResponseHandler(BaseProtocol, DataQueue[tuple[RawResponseMessage, StreamRe
                 self._payload_parser.feed_eof()
 
         uncompleted = None
+        payload_pending = False
         if self._parser is not None:
             try:
                 uncompleted = self._parser.feed_eof()
+                # The whole body has arrived, but part of it may still be
+                # waiting to be decoded because the reader is full. The reader
+                # re-enters the parser through resume_reading() as it drains,
+                # so the parser has to outlive the connection in that case.
+                payload_pending = (
+                    getattr(self._parser, "_payload_parser", None) is not None
+                )
             except Exception as underlying_exc:
                 if self._payload is not None:
                     client_payload_exc_msg = (
@@ -193,7 +201,8 @@ class ResponseHandler(BaseProtocol, DataQueue[tuple[RawResponseMessage, StreamRe
             self.set_exception(reraised_exc, underlying_non_eof_exc)
 
         self._should_close = True
-        self._parser = None
+        if not payload_pending:
+            self._parser = None
         self._payload = None
         self._payload_parser = None
         self._reading_paused = False
